@@ -38,6 +38,20 @@ def run(tier, seed, replay):
         sp["what"] = ["structure"]
         sp["cfg"] = cfg
         base.append(sp)
+    # references that are missing inside decorators, calls, fields and parameter values (each class alone and mixed)
+    DECO = [("d-param", {"services": {"s": {"value": "V", "tags": ["t"]}}, "decorators": [{"tag": "t", "decorator": "Deco", "arguments": ["%nope%"]}]}),
+            ("d-service", {"services": {"s": {"value": "V", "tags": ["t"]}}, "decorators": [{"tag": "t", "decorator": "Deco", "arguments": ["@nope"]}]}),
+            ("d-both", {"services": {"s": {"value": "V", "tags": ["t"]}}, "decorators": [{"tag": "*", "decorator": "Deco", "arguments": ["@nope", "%nope%", "%nope2%"]}]}),
+            ("call-param", {"services": {"s": {"constructor": "NewS", "calls": [["Set", ["%nope%"]], ["With", ["@nope"], True]]}}}),
+            ("field", {"services": {"s": {"type": "T", "fields": {"A": "%nope%", "B": "@nope"}}}}),
+            ("param-in-param", {"parameters": {"a": "%nope% x", "b": "%a%"}, "services": {"s": {"constructor": "NewS", "arguments": ["%b%"]}}}),
+            ("tagged-nobody", {"services": {"s": {"constructor": "NewS", "arguments": ["!tagged nobody"]}}}),
+            ("mixed-with-cycle", {"services": {"a": {"constructor": "NewA", "arguments": ["@b", "%nope%"]}, "b": {"constructor": "NewB", "arguments": ["@a", "@nope"]}}}),
+            ("mixed-with-scope", {"services": {"a": {"constructor": "NewA", "arguments": ["@b", "%nope%", "@nope"], "scope": "shared"}, "b": {"constructor": "NewB", "scope": "contextual"}}})]
+    for nm, cfg in DECO:
+        sp = common.mk_spec("d" + nm, [cfg])
+        sp["what"] = ["missing-in:" + nm]
+        base.append(sp)
     if replay:
         rp = json.load(open(replay))["replay"]
         base = [dict(rp, id="0", dump=True, build_info="bi")]
@@ -57,7 +71,10 @@ def run(tier, seed, replay):
             qspecs.append(q)
     # spellings: --flag=false is the same as no flag, --flag=true / =1 the same as the bare flag
     sspecs, smap = [], []
-    for b, sp in enumerate(base[: (30 if tier == "quick" else 300)]):
+    nsp = 30 if tier == "quick" else 300
+    sp_idx = list(range(min(nsp // 2, n))) + list(range(n, min(len(base), n + nsp // 2)))   # random configurations and structure cases
+    for b in [b for b in sp_idx if b < len(base)]:
+        sp = base[b]
         for name, j_equiv, extra in [("=false both", 0, ["--ignore-missing-params=false", "--ignore-missing-services=false"]),
                                      ("params=false services", 2, ["--ignore-missing-params=false", "--ignore-missing-services"]),
                                      ("params=true", 1, ["--ignore-missing-params=true"]), ("services=1 params=0", 2, ["--ignore-missing-services=1", "--ignore-missing-params=0"])]:
@@ -80,6 +97,11 @@ def run(tier, seed, replay):
                     continue
                 out.violation("quiet-changes-verdict:%s" % (qspecs[2 * k + d]["flags"],), "the same configuration and ignore flags give another exit status / diagnostics with %s" % ("--quiet --stub" if stubmode else "--quiet"),
                               dict(common.slim(qspecs[2 * k + d], qo), without_quiet={"exit": obs[k].get("exit"), "errors": obs[k].get("errors")}))
+            # the bytes written do not depend on the printer; stub builds of one configuration agree across the flag combinations
+            if not qspecs[2 * k + d]["flags"].get("stub") and qo.get("exit") == 0 and obs[k].get("exit") == 0 and qo["out_after"].get("hash") != obs[k]["out_after"].get("hash"):
+                out.violation("quiet-changes-bytes", "the same configuration and ignore flags write other bytes with --quiet", common.slim(qspecs[2 * k + d], qo))
+            if d == 1 and k % 4 and qo.get("exit") == 0 and qobs[2 * (k - k % 4) + 1].get("exit") == 0 and qo["out_after"].get("hash") != qobs[2 * (k - k % 4) + 1]["out_after"].get("hash"):
+                out.violation("accepted-changes-stub:%s" % (COMBOS[k % 4],), "a stub build accepted without ignore flags is written differently under flags %s" % (COMBOS[k % 4],), common.slim(qspecs[2 * k + d], qo))
             if qo.get("stdout"):
                 out.violation("quiet-prints", "--quiet printed something", common.slim(qspecs[2 * k + d], qo))
     for (ref, name), sp_, so in zip(smap, sspecs, sobs):
